@@ -15,7 +15,8 @@ RULE = ("case = generated well-typed program, compiled as is (must be accepted: 
         "entry, site): M1 argument of a nominal type no operation accepts, M2a/M2b too few / too many arguments, M3 undefined name, M4 ambiguous "
         "name assigned to an undeclared variable, M5 assignment to a constant, M6 wrong return type, M7 domain lacking an export of its category, "
         "M8 operation the parameter's category lacks, M9 required export implemented only under a condition, M10/M11/M12 a name imported from two "
-        "instances of one parametrised domain / two parameters of one category / file level and function level, used unqualified; each of M9..M12 "
+        "instances of one parametrised domain / two parameters of one category / file level and function level, used unqualified; M13/M13b assignment to a file-level constant through one / two nested free declarations, M14/M14b a category with two exports of "
+        "one name and a default for one of them whose domain omits the other; each of M9..M14 "
         "has a well-typed twin (export conditional too; use qualified with $) that must be accepted; statement faults are planted at every position of the main block and of every function "
         "body (a seeded sample of the sites in the quick tier). A mutant must give exit != 0, >= 1 (Error) line with a position, and none of .ao .c "
         ".fm .lsp. Non-trivial = the program has >= 10 statements and the fault is not at position 0 of main; distinct = (program, entry, site).")
